@@ -13,9 +13,10 @@ import (
 )
 
 // value kinds: 0 System value, 1 FHIR primitive, 2 complex element, 3 collection of those, 4 empty collection,
-// 5 collection nesting an unsupported Go value, 6 unsupported Go value, 7 nil
+// 5 collection nesting an unsupported Go value, 6 unsupported Go value, 7 nil, 8 collection nesting a collection of
+// supported values (a collection holds items, not collections: nothing downstream flattens or expects one)
 func verifEnvValue(label string) (any, bool) {
-	switch verifrt.Choose(label+".kind", 8) {
+	switch verifrt.Choose(label+".kind", 9) {
 	case 0:
 		return system.Integer(verifrt.NondetInt32(label + ".i")), true
 	case 1:
@@ -37,6 +38,12 @@ func verifEnvValue(label string) (any, bool) {
 		return c, false
 	case 6:
 		return 42, false
+	case 8:
+		inner := system.Collection{system.Integer(verifrt.NondetInt32(label + ".n0"))}
+		if verifrt.NondetBool(label + ".innerEmpty") {
+			inner = system.Collection{}
+		}
+		return system.Collection{inner, system.Integer(3)}, false
 	default:
 		return nil, false
 	}
